@@ -21,7 +21,7 @@ class FactsError(Exception):
 
 def extract(config):
     """Run the driver (or hit the source-hash cache) and return the fact file path."""
-    r = subprocess.run([os.path.join(VERIF, "bin", "extract"), config],
+    r = subprocess.run([os.environ.get("VERIF_EXTRACT") or os.path.join(VERIF, "bin", "extract"), config],
                        capture_output=True, text=True)
     if r.returncode != 0:
         raise FactsError("fact extraction failed for %s:\n%s" % (config, r.stderr[-4000:]))
@@ -119,8 +119,101 @@ def load(config):
             f.bodies.setdefault(b["id"], b)
     except (FactsError, OSError, ValueError, KeyError):
         f.prelude = {}
+    canonicalise(f)
     _cache[config] = f
     return f
+
+
+# ------------------------------------------------------------------ canonical names
+# The interpreter names symbolic inputs after struct fields and parameters (`*self.dc`, `count`), and the rules refer to
+# those names. Private field names and parameter names are not part of the crate's interface: renaming them changes no
+# behaviour. They are therefore canonicalised when the facts are loaded - private fields by their *type* (type-parameter
+# position of the public struct, or the one field of a given type), parameters by *position* (the names they have on the
+# pinned tree, spec/arg_names.json, keyed by trait / self type / method name). A struct whose fields no longer match the
+# roles one-to-one is left alone: the rules then fail closed on the missing name.
+_MO = "mipidsi::options::ModelOptions"
+_SAM = "mipidsi::dcs::set_address_mode::SetAddressMode"
+PRIVATE_ROLES = {
+    "mipidsi::interface::spi::SpiInterface": [("spi", ("param", 1)), ("dc", ("param", 2)), ("buffer", ("refslice",))],
+    "mipidsi::interface::parallel::ParallelInterface": [("bus", ("param", 0)), ("dc", ("param", 1)), ("wr", ("param", 2))],
+    "mipidsi::Display": [("di", ("param", 0)), ("model", ("param", 1)), ("rst", ("optparam", 2)), ("options", ("adt", _MO)),
+                         ("madctl", ("adt", _SAM)), ("sleeping", ("bool",))],
+    "mipidsi::builder::Builder": [("di", ("param", 0)), ("model", ("param", 1)), ("rst", ("optparam", 2)), ("options", ("adt", _MO))],
+    "mipidsi::interface::parallel::Generic8BitBus": [("pins", ("tuple",)), ("last", ("optint",))],
+    "mipidsi::interface::parallel::Generic16BitBus": [("pins", ("tuple",)), ("last", ("optint",))],
+}
+
+
+def _role_matches(ty, spec):
+    k = spec[0]
+    if k == "param":
+        return ty.get("k") == "param" and ty.get("idx") == spec[1]
+    if k == "optparam":
+        return ty.get("k") == "adt" and ty.get("def") == "core::option::Option" and ty["args"] and \
+            ty["args"][0].get("k") == "param" and ty["args"][0].get("idx") == spec[1]
+    if k == "optint":
+        return ty.get("k") == "adt" and ty.get("def") == "core::option::Option" and ty["args"] and ty["args"][0].get("k") == "int"
+    if k == "adt":
+        return ty.get("k") == "adt" and ty.get("def") == spec[1]
+    if k == "bool":
+        return ty.get("k") == "bool"
+    if k == "tuple":
+        return ty.get("k") == "tuple"
+    if k == "refslice":
+        return ty.get("k") == "ref" and (ty.get("ty") or {}).get("k") == "slice"
+    return False
+
+
+def arg_key(rec):
+    ct = rec.get("container") or {}
+    st = ct.get("self_ty") or {}
+    sd = st.get("def") or st.get("s")
+    if ct.get("kind") == "trait_impl":
+        return "T|%s|%s|%s" % (ct.get("trait"), sd, rec["name"])
+    if ct.get("kind") == "inherent_impl":
+        return "I|%s|%s" % (sd, rec["name"])
+    return "F|%s" % rec["id"]
+
+
+def canonicalise(f):
+    f.renamed = []
+    for adt, roles in PRIVATE_ROLES.items():
+        a = f.adts.get(adt)
+        if a is None or not a.get("variants"):
+            continue
+        fields = a["variants"][0]["fields"]
+        hit = {}
+        ok = len(fields) == len(roles)
+        for name, spec in roles:
+            m = [i for i, fl in enumerate(fields) if _role_matches(fl["ty"], spec)]
+            if len(m) != 1 or m[0] in hit.values():
+                ok = False
+                break
+            hit[name] = m[0]
+        if not ok:
+            continue
+        for name, i in hit.items():
+            if fields[i]["name"] != name:
+                f.renamed.append("%s.%s -> %s" % (adt, fields[i]["name"], name))
+                fields[i]["name"] = name
+    try:
+        with open(os.path.join(VERIF, "spec", "arg_names.json")) as fh:
+            table = json.load(fh)
+    except (OSError, ValueError):
+        table = {}
+    for rec in f.bodies.values():
+        if rec.get("kind") not in ("Fn", "AssocFn") or rec["id"] in getattr(f, "prelude", {}):
+            continue
+        want = table.get(arg_key(rec))
+        body = rec.get("body")
+        if not want or body is None or int(body["arg_count"]) != len(want):
+            continue
+        for d in body.get("debug", []):
+            if d.get("arg") is not None and not d["place"]["proj"] and 1 <= d["place"]["local"] <= len(want):
+                w = want[d["place"]["local"] - 1]
+                if w and d["name"] != w:
+                    f.renamed.append("%s(%s -> %s)" % (rec["pretty"], d["name"], w))
+                    d["name"] = w
 
 
 # ------------------------------------------------------------------ printer
